@@ -90,6 +90,7 @@ PROPS = {
         spec_ops=[],
         rule="random claims of the three submittable claim types (uint64 fields over edge values, amounts nil/0/negative/2^256-1, strings incl. '/', ',', '=', NUL, non-ASCII, eth and bech32 addresses); "
              "per claim 18 single-field mutations (every effect-bearing field) and re-splits of '/'-joined adjacent free-form fields; real ClaimHash vs the SHA-256 of the model's pre-image built from the generated format table; "
+             "for every hashed string field of every claim type values of 20..1000 characters (around 32, 64, 128, 256) changed at the last character, extended by one, changed in the middle (c11LongFields); "
              "distinct = distinct claim text; all cases non-trivial",
         trusted_base=["tmhash (SHA-256) collision freeness is a hypothesis of same_key_same_fields; the executable Lean SHA-256 is validated by the correspondence and test vectors",
                       "the extractor's reading of ClaimHash (format literal, argument list), of the claim structs and of the handlers' `claim.X` selectors (Gen/Claims.lean, printed in evidence)"],
